@@ -8,15 +8,16 @@
 // predicate failure with a class `<how>:<site>:<shape>`, so that a different crash is a different class.
 //
 // Line kinds (all self-contained; the ledger state under every case is the same persisted setup state):
-//   X f <code>          the real vm.Executor stepped opcode by opcode (ExecuteOp) on <code>, feature flags f; MODELLED:
-//                       output = final stacks in canonical form | fault | unmodelled (an opcode outside Model/NeoExec) | steplimit
-//   V <gas> <code>      NeoVM invoke transaction: block execution (ExecuteBlock, HandleInvokeTransaction) AND PreExecuteContract
-//   N <c> <m> <args> w  native contract c, method m (hex), raw argument bytes, through native.NativeService (invoke and pre-exec flag)
-//   E <k> <gas> <data>  EIP-155 transaction (k=c: contract creation with init code <data>; k=r: deploy <data> as runtime code in
-//                       one transaction and call it in the next), block execution AND PreExecuteContract
-//   W <module> <args>   a wasm module: Deploy transaction (ReadWasmModule on attacker bytes) and, in the same block, an InvokeWasm transaction
-//                       running its `invoke` export in the wagon interpreter; both also pre-executed
-//   for V/N/E/W the output is `nocrash` (the model knows nothing more about them); what happened goes to Kind.
+//
+//	X f <code>          the real vm.Executor stepped opcode by opcode (ExecuteOp) on <code>, feature flags f; MODELLED:
+//	                    output = final stacks in canonical form | fault | unmodelled (an opcode outside Model/NeoExec) | steplimit
+//	V <gas> <code>      NeoVM invoke transaction: block execution (ExecuteBlock, HandleInvokeTransaction) AND PreExecuteContract
+//	N <c> <m> <args> w  native contract c, method m (hex), raw argument bytes, through native.NativeService (invoke and pre-exec flag)
+//	E <k> <gas> <data>  EIP-155 transaction (k=c: contract creation with init code <data>; k=r: deploy <data> as runtime code in
+//	                    one transaction and call it in the next), block execution AND PreExecuteContract
+//	W <module> <args>   a wasm module: Deploy transaction (ReadWasmModule on attacker bytes) and, in the same block, an InvokeWasm transaction
+//	                    running its `invoke` export in the wagon interpreter; both also pre-executed
+//	for V/N/E/W the output is `nocrash` (the model knows nothing more about them); what happened goes to Kind.
 package main
 
 import (
@@ -27,8 +28,8 @@ import (
 	"os"
 	"os/exec"
 	"regexp"
-	"strconv"
 	"runtime/debug"
+	"strconv"
 	"strings"
 	"sync"
 	"syscall"
@@ -279,7 +280,7 @@ func fatalSite(tb string) (what, site, nt string) {
 	count := map[string]int{}
 	var order []string
 	n := 0
-	lib := ""      // package of the topmost frame when it is not a repository function
+	lib := ""       // package of the topmost frame when it is not a repository function
 	firstRepo := "" // first repository function anywhere in the traceback (the bottom frames are printed even when the middle is elided)
 	frames := 0
 	for _, l := range strings.Split(tb[i:], "\n") {
@@ -380,7 +381,17 @@ func lineKind(line string) string {
 	return f[0]
 }
 
+// Exec: a timeout that carries no shape note (nothing says the case is one of the known slow ones) is tried once more in a fresh worker with
+// three times the limit before it counts: on a machine shared with other checks a line that needs 3 s can take 30.
 func Exec(line string) hx.Result {
+	r := exec1(line, 1)
+	if r.Out == "TIMEOUT" && r.Class == "timeout:"+lineKind(line) {
+		r = exec1(line, 3)
+	}
+	return r
+}
+
+func exec1(line string, factor int) hx.Result {
 	if theWorker == nil {
 		theWorker = startWorker()
 	}
@@ -400,7 +411,7 @@ func Exec(line string) hx.Result {
 		done <- ans{s, err}
 	}()
 	var a ans
-	limit := timeoutFor(line)
+	limit := timeoutFor(line) * time.Duration(factor)
 	cpu0 := cpuSeconds(w.cmd.Process.Pid)
 	got := false
 	for ext := 0; !got; ext++ {
@@ -425,7 +436,7 @@ func Exec(line string) hx.Result {
 		if nt != "" {
 			cls += ":" + nt
 		}
-		return hx.Result{Out: "TIMEOUT", Fail: "no answer within " + timeoutFor(line).String() + " (unbounded loop / recursion)", Class: cls, Kind: cls, Key: line}
+		return hx.Result{Out: "TIMEOUT", Fail: "no answer within " + limit.String() + " (unbounded loop / recursion)", Class: cls, Kind: cls, Key: line}
 	}
 	var r wres
 	if a.err != nil || a.s == "" || json.Unmarshal([]byte(a.s), &r) != nil {
@@ -477,6 +488,6 @@ func main() {
 		Corpus:  corpus(),
 		N:       map[string]int{"quick": 4000, "thorough": 40000},
 		Isolate: true,
-		Timeout: 1200 * time.Second,
+		Timeout: 3600 * time.Second,
 	})
 }
